@@ -5,15 +5,44 @@ Engine E2: breadth-first search over histories of {%define n v, use n, enter an
 depth) of the reference model, validated against the implementation at every new
 state by probing each name; every transition's text is loaded twice in a row
 against the same schema object and compared with the reference DefineSpace.
+
+Wave 2 adds two axes.  (1) The NAME position of a %define is drawn from its own
+alphabet (every '$'-form that the value position knows, written where the name
+belongs, next to the other illegal names), so "an illegal name is refused"
+is explored for every history of definitions read before it.  (2) Sessions: all
+ordered pairs / triples of texts (every history of <= 2 events over a reduced
+alphabet that also has one event per way a load can fail) are loaded one after
+the other on ONE loader object (plain, extended, loadFile / loadURL entry, and
+fresh loaders sharing only the schema); every load of a session must give
+what the reference says for that text alone and exactly what a first load on a
+new loader gives.
 """
+import io
+
 from vz import core
 from vz.harness import load as H
 from vz.ref import subst as RS
 
-SCHEMA = "<schema>\n  <multikey name='u'/>\n</schema>\n"
+SCHEMA = "<schema>\n  <multikey name='u'/>\n  <key name='n' datatype='integer' default='0'/>\n  <key name='o' default='d'/>\n</schema>\n"
 NAMES = ["a", "b", "ab"]
 SPELL = {"a": ["a", "A"], "b": ["B", "b"], "ab": ["Ab", "aB"]}
 MAIN = "file:///v/main.conf"
+
+# one line per way a load can fail that is not a %define / reference matter:
+# at the scanner, at the matcher while parsing, when a resource is opened, and
+# after the last line when the values are converted (SchemaMatcher.finish)
+FAULTS = {"junk": "<<<", "unknown-key": "zz 1", "no-file": "%include nofile.conf", "finish": "n notint"}
+
+# what may be written where the NAME of a %define belongs and is not a name
+FIXED_ILLEGAL = ["a-b", "1a", "$$a", "a$b", "a$$"]
+
+
+def illegal_names():
+    out = list(FIXED_ILLEGAL)
+    for n in NAMES:
+        out.append("$" + SPELL[n][0])
+        out.append("${" + SPELL[n][1] + "}")
+    return out
 
 
 def alphabet(tier):
@@ -28,8 +57,12 @@ def alphabet(tier):
         for sp in SPELL[n]:
             for v in vals:
                 evs.append(("def", sp, v))
-    evs.append(("def", "a-b", "lit"))
-    evs.append(("def", "1a", "lit"))
+    for bad in illegal_names():
+        evs.append(("def", bad, "lit"))
+    if tier != "quick":
+        for bad in illegal_names():
+            if "$" in bad:
+                evs.append(("def", bad, ""))
     for n in NAMES:
         for sp in SPELL[n]:
             evs.append(("use", sp))
@@ -52,6 +85,8 @@ def build_files(hist):
             cur.append("u $" + ev[1])
         elif ev[0] == "use{}":
             cur.append("u ${" + ev[1] + "}-")
+        elif ev[0] == "fault":
+            cur.append(FAULTS[ev[1]])
         elif ev[0] == "push":
             count += 1
             name = "inc%d.conf" % count
@@ -65,53 +100,71 @@ def build_files(hist):
     return {u: "\n".join(l) + ("\n" if l else "") for u, l in files.items()}
 
 
-def reference(hist):
-    """-> (outcome, DefineSpace, depth, alive).  outcome: ('ok', [values of u]) |
-    ('syntax',) | ('missing', lname) | ('unspec',)"""
+def ref_run(hist):
+    """-> (outcome, DefineSpace, depth, alive, at).  outcome: ('ok', [values of u]) |
+    ('syntax',) | ('missing', lname) | ('rejected',) | ('unspec',); `at` is the index of
+    the event at which reading stopped (None: read to the end).  ('rejected',): the load
+    must fail with a configuration error whose kind is not this property's subject."""
     ds = RS.DefineSpace()
     depth = 0
     uses = []
-    for ev in hist:
+    pending = False          # a value that cannot be converted once the text has been read
+    for i, ev in enumerate(hist):
         if ev[0] == "def":
             raw = ev[2].strip()
             r = ds.define(ev[1], raw)
             if r == "ok":
                 continue
             if r == "unspec" or isinstance(r, list):
-                return ("unspec",), ds, depth, False
+                return ("unspec",), ds, depth, False, i
             if r == "syntax":
-                return ("syntax",), ds, depth, False
+                return ("syntax",), ds, depth, False, i
             if isinstance(r, tuple) and r[0] == "missing":
-                return ("missing", r[1].lower()), ds, depth, False
-            return ("unspec",), ds, depth, False
+                return ("missing", r[1].lower()), ds, depth, False, i
+            return ("unspec",), ds, depth, False, i
         elif ev[0] in ("use", "use{}"):
             txt = "$" + ev[1] if ev[0] == "use" else "${" + ev[1] + "}-"
             r = ds.expand(txt)
             if r[0] == RS.OK:
                 uses.append(r[1])
             elif r[0] == RS.MISSING:
-                return ("missing", r[1].lower()), ds, depth, False
+                return ("missing", r[1].lower()), ds, depth, False, i
             else:
-                return ("unspec",), ds, depth, False
+                return ("unspec",), ds, depth, False, i
+        elif ev[0] == "fault":
+            if ev[1] == "junk":
+                return ("syntax",), ds, depth, False, i
+            if ev[1] != "finish" or pending:
+                return ("rejected",), ds, depth, False, i
+            pending = True
         elif ev[0] == "push":
             depth += 1
         elif ev[0] == "pop":
             depth -= 1
-    return ("ok", uses), ds, depth, True
+    if pending:
+        return ("rejected",), ds, depth, False, None
+    return ("ok", uses), ds, depth, True, None
+
+
+def reference(hist):
+    return ref_run(hist)[:4]
+
+
+def outcome_of(e):
+    import ZConfig
+    if isinstance(e, ZConfig.SubstitutionReplacementError):
+        return ("missing", e.name)
+    if isinstance(e, ZConfig.ConfigurationSyntaxError):
+        return ("syntax",)
+    return ("other-config-error", type(e).__name__)
 
 
 def observe(sch, files):
-    import ZConfig
     r = H.load_mem(sch, files, MAIN)
     if r[0] == "ok":
         return ("ok", list(r[1].u))
     if r[0] == "rejected":
-        e = r[1]
-        if isinstance(e, ZConfig.SubstitutionReplacementError):
-            return ("missing", e.name)
-        if isinstance(e, ZConfig.ConfigurationSyntaxError):
-            return ("syntax",)
-        return ("other-config-error", type(e).__name__)
+        return outcome_of(r[1])
     return ("internal", core.exc_desc(r[1]))
 
 
@@ -127,56 +180,77 @@ def features(hist):
                 if "$" in ev[2] or "$" in seen[ln]:
                     f.add("redefinition-with-dollar")
             seen[ln] = ev[2]
+            if "$" in ev[1]:
+                f.add("dollar-in-name")
         if ev[0] == "push":
             f.add("include")
     return sorted(f)
 
 
+def name_position_class(hist, acc):
+    """Vacuity counters of the name-position axis: a reference written where the name
+    of a %define belongs, by what the referenced name holds at that point."""
+    ev = hist[-1]
+    if ev[0] != "def" or "$" not in ev[1] or "$$" in ev[1]:
+        return
+    ds = ref_run(hist[:-1])[1]
+    refs = [k for kind, k in RS.references(ev[1]) if kind == "d"]
+    if not refs:
+        return
+    v = ds.lookup(refs[0])
+    if v is None:
+        acc.extra["name_position_reference_undefined"] += 1
+    elif RS.is_name(v)[0]:
+        acc.extra["name_position_reference_to_a_legal_name"] += 1
+    else:
+        acc.extra["name_position_reference_to_other_text"] += 1
+
+
 def check(sch, hist, acc):
     files = build_files(hist)
-    exp, ds, depth, alive = reference(hist)
+    exp, ds, depth, alive, at = ref_run(hist)
     acc.ev(2)
     case = {"history": [list(e) for e in hist], "files": files}
     o1 = observe(sch, files)
     o2 = observe(sch, files)
     nd = sum(1 for e in hist if e[0] == "def")
     nu = sum(1 for e in hist if e[0].startswith("use"))
-    if nd >= 1 and (nu >= 1 or "redefinition" in features(hist)):
+    fs = features(hist)
+    if nd >= 1 and (nu >= 1 or "redefinition" in fs):
         acc.nt()
     acc.sample(lambda: dict(case, expected=list(exp)))
     acc.cls("ref=%s impl=%s" % (exp[0], o1[0]))
+    name_position_class(hist, acc)
     if o1 != o2:
         acc.violation("second-load-differs", case, [o1, o2], "same outcome twice",
-                      tags={"kind": "carry-over", "features": features(hist)})
+                      tags={"kind": "carry-over", "features": fs})
         return False
     if exp[0] == "unspec":
         if o1[0] == "internal":
             acc.violation("internal-error", case, o1[1], "configuration error", tags={"kind": "internal-error"})
         return False
-    if not agrees(o1, exp, hist):
-        fs = features(hist)
+    if not agrees(o1, exp, hist, at):
         acc.violation("define-namespace-outcome", case, list(o1), list(exp),
                       tags={"kind": "define-namespace", "expected": exp[0], "observed": o1[0],
-                            "redefinition_with_dollar": "redefinition-with-dollar" in fs})
+                            "redefinition_with_dollar": "redefinition-with-dollar" in fs,
+                            "dollar_in_name": "dollar-in-name" in fs})
         return False
     return alive
 
 
-def agrees(obs, exp, hist):
+def agrees(obs, exp, hist, at="?"):
     """ok: same values.  A use of an undefined name must be the replacement error
     carrying that name (letter case of .name is C04's subject).  A refused
     %define is 'rejected as a syntax error': the replacement error is a
-    ConfigurationSyntaxError too, and which of two causes is reported is open."""
+    ConfigurationSyntaxError too, and which of two causes is reported is open.
+    ('rejected',): any configuration error."""
     if exp[0] == "ok":
         return list(obs) == list(exp)
-    last = hist[-1][0] if hist else None
-    fail_at_def = False
-    # find the event at which the reference stopped
-    for i in range(1, len(hist) + 1):
-        if reference(hist[:i])[0][0] != "ok":
-            fail_at_def = hist[i - 1][0] == "def"
-            break
-    if fail_at_def:
+    if at == "?":
+        at = ref_run(hist)[4]
+    if exp[0] == "rejected":
+        return obs[0] in ("syntax", "missing", "other-config-error")
+    if at is not None and hist[at][0] == "def":
         return obs[0] in ("syntax", "missing")
     if exp[0] == "missing":
         return obs[0] == "missing" and str(obs[1]).lower() == exp[1]
@@ -204,7 +278,7 @@ def probe_state(sch, hist, ds, acc):
     return True
 
 
-def shard(arg, acc):
+def bfs_shard(arg, acc):
     first, depth, tier = arg
     sch = H.load_schema(SCHEMA)
     A = alphabet(tier)
@@ -213,6 +287,7 @@ def shard(arg, acc):
         return acc
     if not check(sch, root, acc):
         acc.transitions += 1
+        acc.traces = acc.transitions
         return acc
     acc.transitions += 1
     seen = set()
@@ -245,33 +320,313 @@ def shard(arg, acc):
     return acc
 
 
+# ---------------------------------------------------------------------------
+# sessions: several loads, one after the other, on one loader object
+
+VARIANTS = [("plain", "file"), ("plain", "url"), ("extended", "file"), ("extended", "url"), ("fresh", "file")]
+
+
+def session_alphabet(tier):
+    """Reduced event alphabet of the texts of a session: two names, each defined with
+    three different values in two spellings, an illegal name, uses, include
+    boundaries, and one event per way a load can fail."""
+    evs = []
+    two = ["a", "b"]
+    for n in two:
+        o = [m for m in two if m != n][0]
+        evs.append(("def", SPELL[n][0], "lit"))
+        evs.append(("def", SPELL[n][1], "$" + SPELL[o][0]))
+        evs.append(("def", SPELL[n][1], ""))
+        if tier != "quick":
+            evs.append(("def", SPELL[n][0], "${" + o + "}x"))
+            evs.append(("def", SPELL[n][1], "$$" + o))
+    evs.append(("def", "$a", "lit"))
+    if tier != "quick":
+        evs.append(("def", "1a", "lit"))
+    evs.append(("use", "a"))
+    evs.append(("use", "B"))
+    evs.append(("use{}", "A"))
+    evs.append(("push",))
+    evs.append(("pop",))
+    for k in FAULTS:
+        evs.append(("fault", k))
+    return evs
+
+
+def texts(R, maxlen):
+    """Every history of 1..maxlen events over R (no return from a resource that was
+    never entered), as a list of lists T[len]; all of them, whatever their outcome."""
+    levels = [[()]]
+    for _ in range(maxlen):
+        nxt = []
+        for h in levels[-1]:
+            dep = sum(1 for e in h if e[0] == "push") - sum(1 for e in h if e[0] == "pop")
+            for ev in R:
+                if ev[0] == "pop" and dep == 0:
+                    continue
+                nxt.append(h + (ev,))
+        levels.append(nxt)
+    return levels[1:]
+
+
+class Text:
+    __slots__ = ("hist", "files", "exp", "at", "residue", "touches", "fresh")
+
+    def __init__(self, hist):
+        self.hist = hist
+        self.files = build_files(hist)
+        exp, ds, _, alive, at = ref_run(hist)
+        self.exp = exp
+        self.at = at
+        # names the reference had read when a refused load stopped
+        self.residue = frozenset(ds.defs) if exp[0] != "ok" else frozenset()
+        t = set()
+        for ev in hist:
+            if ev[0] in ("def", "use", "use{}") and "$" not in ev[1] and RS.is_name(ev[1])[0]:
+                t.add(ev[1].lower())
+        self.touches = frozenset(t)
+        self.fresh = None
+
+
+def make_loader(sch, kind):
+    """A loader whose public openResource serves file:///v/... from the dict in
+    `.files`, which the session replaces before each load."""
+    import ZConfig
+    import ZConfig.loader
+    base = ZConfig.loader.ConfigLoader
+    if kind == "extended":
+        from ZConfig import cmdline
+        base = cmdline.ExtendedConfigLoader
+    cls = _LOADER_CLASSES.get(kind)
+    if cls is None:
+        class SessionLoader(base):
+            files = None
+
+            def openResource(self, url):
+                url = str(url)
+                if url in self.files:
+                    return self.createResource(io.StringIO(self.files[url]), url)
+                if url.startswith("file:///v/"):
+                    raise ZConfig.ConfigurationError("error opening file %s: no such file" % url, url)
+                return base.openResource(self, url)
+        cls = _LOADER_CLASSES[kind] = SessionLoader
+    ld = cls(sch)
+    if kind == "extended":
+        ld.addOption(OPTION)       # so that the extended matcher is really used
+    return ld
+
+
+_LOADER_CLASSES = {}
+OPTION = "o=7"
+
+
+def session_load(ld, files, entry):
+    """-> (outcome, message): one load through the public entry point `entry`."""
+    import ZConfig
+    ld.files = files
+    try:
+        if entry == "url":
+            cfg, _ = ld.loadURL(MAIN)
+        else:
+            cfg, _ = ld.loadFile(io.StringIO(files[MAIN]), MAIN)
+        return ("ok", list(cfg.u)), ""
+    except ZConfig.ConfigurationError as e:
+        return outcome_of(e), str(e)
+    except Exception as e:
+        return ("internal", core.exc_desc(e)), ""
+
+
+def run_session(sch, variant, ts, acc):
+    """Load the texts `ts` in this order on one loader (variant 'fresh': on a new
+    loader each, sharing the schema object and the process only)."""
+    kind, entry = variant
+    ld = None if kind == "fresh" else make_loader(sch, kind)
+    acc.extra["sessions"] += 1
+    acc.extra["sessions_%s_%s_len%d" % (kind, entry, len(ts))] += 1
+    if any(e[0] == "def" for e in ts[0].hist) and any(e[0] in ("def", "use", "use{}") for e in ts[-1].hist):
+        acc.nt()
+    for i in range(1, len(ts)):
+        if ts[i - 1].residue & ts[i].touches:
+            acc.extra["sessions_text_after_refused_load_that_had_read_its_names"] += 1
+            break
+    prev = "first"
+    alone = "extended" if kind == "extended" else "plain"
+    for i, t in enumerate(ts):
+        l = make_loader(sch, "plain") if ld is None else ld
+        got = session_load(l, t.files, entry)
+        acc.ev()
+        acc.transitions += 1
+        acc.cls("session after=%s ref=%s impl=%s" % (prev, t.exp[0], got[0][0]))
+        bad = None
+        if got[0][0] == "internal":
+            bad = "internal-error"
+        elif t.exp[0] != "unspec" and not agrees(got[0], t.exp, t.hist, t.at):
+            bad = "outcome-differs-from-reference"
+        elif got != t.fresh[alone]:
+            bad = "outcome-differs-from-first-load-on-new-loader"
+        if bad:
+            case = {"session": [[list(e) for e in x.hist] for x in ts], "variant": list(variant),
+                    "load": i, "files": t.files}
+            acc.violation("session-" + bad, case, [list(got[0]), got[1]],
+                          {"reference": list(t.exp), "alone_on_new_loader": [list(t.fresh[alone][0]), t.fresh[alone][1]]},
+                          tags={"kind": "session", "what": bad, "after": prev, "expected": t.exp[0],
+                                "observed": got[0][0], "loader": kind, "entry": entry})
+            return
+        prev = "ok" if t.exp[0] == "ok" else "refused"
+    acc.sample(lambda: {"session": [[list(e) for e in x.hist] for x in ts], "variant": list(variant),
+                        "expected": [list(x.exp) for x in ts]})
+
+
+def session_plan(tier):
+    """-> (R, table T1, T2, T3-or-None).  Texts are numbered; sessions are index tuples."""
+    R = session_alphabet(tier)
+    lv = texts(R, 3 if tier != "quick" else 2)
+    T1 = [Text(h) for h in lv[0]]
+    T2 = T1 + [Text(h) for h in lv[1]]
+    T3 = None
+    if tier != "quick":
+        # deeper first texts over the quick alphabet
+        Rq = session_alphabet("quick")
+        T3 = [Text(h) for l in texts(Rq, 3) for h in l]
+    return R, T1, T2, T3
+
+
+_PLAN = None
+
+
+def session_shard(arg, acc):
+    """arg = (what, tier, lo, hi): first texts lo..hi-1 of the enumeration `what`."""
+    what, tier, lo, hi = arg
+    R, T1, T2, T3 = _PLAN
+    sch = H.load_schema(SCHEMA)
+    if what == "singles":
+        # every text of the session table alone, twice, against the reference
+        for t in T2[lo:hi]:
+            acc.current = t.hist
+            check(sch, t.hist, acc)
+            acc.transitions += 1
+    elif what == "pairs2":
+        for t1 in T2[lo:hi]:
+            for t2 in T2:
+                acc.current = (t1.hist, t2.hist)
+                run_session(sch, VARIANTS[0], (t1, t2), acc)
+                if tier != "quick":
+                    for v in VARIANTS[1:]:
+                        run_session(sch, v, (t1, t2), acc)
+    elif what == "pairs1":
+        for t1 in T1[lo:hi]:
+            for t2 in T1:
+                for v in VARIANTS[1:]:
+                    acc.current = (t1.hist, t2.hist, v)
+                    run_session(sch, v, (t1, t2), acc)
+    elif what == "triples1":
+        vs = VARIANTS[:1] if tier == "quick" else VARIANTS
+        for t1 in T1[lo:hi]:
+            for t2 in T1:
+                for t3 in T1:
+                    for v in vs:
+                        acc.current = (t1.hist, t2.hist, t3.hist, v)
+                        run_session(sch, v, (t1, t2, t3), acc)
+    elif what == "pairs3":
+        for t1 in T3[lo:hi]:
+            for t2 in T2:
+                acc.current = (t1.hist, t2.hist)
+                run_session(sch, VARIANTS[0], (t1, t2), acc)
+    acc.traces = acc.transitions
+    return acc
+
+
+def shard(arg, acc):
+    if arg[0] == "bfs":
+        return bfs_shard(arg[1:], acc)
+    return session_shard(arg, acc)
+
+
+def chunks(what, tier, n, k):
+    step = max(1, -(-n // k))
+    return [(what, tier, lo, min(n, lo + step)) for lo in range(0, n, step)]
+
+
 def run(tier):
+    global _PLAN
     depth = 4 if tier == "quick" else 6
     A = alphabet(tier)
+    _PLAN = session_plan(tier)
+    R, T1, T2, T3 = _PLAN
+    # the differential side of a session: each text alone, first load on a new loader of
+    # either class (computed once, before the workers are forked; the texts themselves
+    # are compared with the reference by the 'singles' shards)
+    sch = H.load_schema(SCHEMA)
+    for tab in (T2, T3 or []):
+        for t in tab:
+            t.fresh = {k: session_load(make_loader(sch, k), t.files, "file") for k in ("plain", "extended")}
+    ill = illegal_names()
     run = core.Run(
         "C05", tier, "model_checking",
-        rule="breadth-first search over histories of up to %d steps from an alphabet of %d events (%%define of 3 "
-             "names in 2 spellings each x literal / empty / padded / $other / $$other / ${other}x values, 2 illegal "
-             "names, uses of every spelling, enter / leave an %%include-d resource to depth 2); state = (defines "
-             "mapping of the reference model, include depth), each new state validated against the implementation "
-             "by probing every name; every transition's files are loaded twice against one schema object and "
-             "compared with the reference DefineSpace.  Non-trivial = history with >= 1 define and >= 1 use or "
-             "redefinition.  Search trees are rooted at each first event (shards), so histories are distinct."
-             % (depth, len(A)),
-        bounds={"depth": depth, "alphabet": len(A), "include_depth": 2},
+        rule="(1) breadth-first search over histories of up to %d steps from an alphabet of %d events (%%define of 3 "
+             "names in 2 spellings each x literal / empty / padded / $other / $$other / ${other}x values; %d tokens "
+             "that are not names written in the NAME position of a %%define: %s - i.e. every '$'-form of every name "
+             "where the name belongs, so that the refusal is explored after every history that has / has not "
+             "defined the referenced name; uses of every spelling; enter / leave an %%include-d resource to depth "
+             "2); state = (defines mapping of the reference model, include depth), each new state validated against "
+             "the implementation by probing every name; every transition's files are loaded twice against one "
+             "schema object and compared with the reference DefineSpace.  Search trees are rooted at each first "
+             "event (shards), so histories are distinct.  (2) sessions = loads one after the other on ONE loader "
+             "object: texts T1 / T2 = every history of 1 / <= 2 events over a reduced alphabet of %d events (2 names "
+             "x 3 values in 2 spellings, an illegal name, 3 uses, enter / leave an include, and one event per way a "
+             "load fails: scanner error, unknown key, resource that cannot be opened, value refused after the last "
+             "line) = %d / %d texts, each also checked alone; %s.  Every load of a session must agree with the "
+             "reference of its text alone AND equal (outcome and message) the first load of that text on a new "
+             "loader of the same class (the ExtendedConfigLoader carries one override of an unrelated key, so its "
+             "own schema matcher is in use).  Non-trivial = history with >= 1 define and >= 1 use or redefinition; session whose first text "
+             "has a define and whose last text a define or use."
+             % (depth, len(A), len(ill), " ".join(ill), len(R), len(T1), len(T2),
+                "all ordered pairs over T2 on a plain ConfigLoader through loadFile; all ordered pairs over T1 on "
+                "plain / loadURL, ExtendedConfigLoader / loadFile and loadURL, and on new loaders sharing the "
+                "schema; all ordered triples over T1 on the plain loader" if tier == "quick" else
+                "all ordered pairs over T2 and all ordered triples over T1 in each of 5 loader variants (plain or "
+                "ExtendedConfigLoader x loadFile or loadURL, and new loaders sharing the schema); all pairs "
+                "(first text of <= 3 events over the quick alphabet: %d texts) x T2 on the plain loader" % len(T3)),
+        bounds={"depth": depth, "alphabet": len(A), "include_depth": 2, "name_position_tokens": len(ill),
+                "session_alphabet": len(R), "session_texts_len1": len(T1), "session_texts_le2": len(T2),
+                "session_texts_le3": len(T3) if T3 else 0, "session_lengths": [2, 3],
+                "loader_variants": ["%s/%s" % v for v in VARIANTS]},
         assumptions=["reference DefineSpace vz/ref/subst.py", "resources served in memory through the public "
-                     "openResource override; relative include resolution is C06's subject"])
-    core.pmap(shard, [(ev, depth, tier) for ev in A], run.acc, shard_budget=3000.0)
+                     "openResource override; relative include resolution is C06's subject",
+                     "a load that must fail for a reason outside this property (unknown key, unopenable resource, "
+                     "unconvertible value) is only required to raise a ConfigurationError"])
+    shards = [("bfs", ev, depth, tier) for ev in A]
+    shards += chunks("singles", tier, len(T2), 4)
+    shards += chunks("pairs2", tier, len(T2), 64 if tier == "quick" else 256)
+    if tier == "quick":           # (thorough: the pairs over T2 already run in every variant)
+        shards += chunks("pairs1", tier, len(T1), 4)
+    shards += chunks("triples1", tier, len(T1), len(T1))
+    if T3:
+        shards += chunks("pairs3", tier, len(T3), 512)
+    core.pmap(shard, shards, run.acc, shard_budget=3000.0)
     a = run.acc
     run.require(a.classes.get("ref=ok impl=ok", 0) > 500, "few accepted histories")
     run.require(a.classes.get("ref=syntax impl=syntax", 0) > 100, "few refused redefinitions")
     run.require(a.classes.get("ref=missing impl=missing", 0) > 100, "few undefined uses")
+    run.require(a.extra.get("name_position_reference_to_a_legal_name", 0) > 200,
+                "few %define lines whose name position refers to a name defined as a legal name")
+    run.require(a.extra.get("name_position_reference_undefined", 0) > 200,
+                "few %define lines whose name position refers to an undefined name")
+    run.require(a.extra.get("sessions_text_after_refused_load_that_had_read_its_names", 0) > 1000,
+                "few sessions in which a text follows a refused load that had read a definition of a name it mentions")
+    run.require(a.classes.get("session after=refused ref=missing impl=missing", 0) > 1000,
+                "few undefined uses after a refused load on the same loader")
+    run.require(a.classes.get("session after=ok ref=ok impl=ok", 0) > 1000, "few accepted loads after accepted loads")
+    for v in VARIANTS:
+        run.require(a.extra.get("sessions_%s_%s_len2" % v, 0) >= len(T1) * len(T1), "loader variant %s/%s not run" % v)
     return run
 
 
 def replay(body):
     case = body["case"]
     sch = H.load_schema(SCHEMA)
+    if "session" in case:
+        return replay_session(sch, case)
     hist = tuple(tuple(e) for e in case["history"])
     rc = 0
     for _ in range(2):
@@ -283,4 +638,23 @@ def replay(body):
         print("observed:", got, " reference:", exp)
         if exp[0] != "unspec" and not agrees(got, exp, hist):
             rc = 1
+    return rc
+
+
+def replay_session(sch, case):
+    ts = [Text(tuple(tuple(e) for e in h)) for h in case["session"]]
+    kind, entry = case["variant"]
+    rc = 0
+    for _ in range(2):
+        ld = None if kind == "fresh" else make_loader(sch, kind)
+        for i, t in enumerate(ts):
+            alone = session_load(make_loader(sch, "extended" if kind == "extended" else "plain"), t.files, "file")
+            got = session_load(make_loader(sch, "plain") if ld is None else ld, t.files, entry)
+            print("=== load %d of the session (%s loader, %s)" % (i + 1, kind, entry))
+            for u, x in t.files.items():
+                print("--- %s\n%s" % (u, x), end="")
+            print("observed:", got, "\nalone on a new loader:", alone, "\nreference:", t.exp)
+            if got[0][0] == "internal" or got != alone or \
+                    (t.exp[0] != "unspec" and not agrees(got[0], t.exp, t.hist, t.at)):
+                rc = 1
     return rc
